@@ -116,6 +116,26 @@ def annotate_ez_isomers_cgsmiles(molecule):
     """
     ez_isomer_class = nx.get_node_attributes(molecule, 'ez_isomer_class')
     _annotate_ez_isomers(molecule, ez_isomer_class)
+    # pysmiles assumes that the ligand of the second anchor is written after
+    # its anchor. This does not hold when fragments are joined in arbitrary
+    # order. Hence, we evaluate the tokens relative to the writing direction;
+    # a token written from ligand to anchor is the inverse of the same token
+    # written from anchor to ligand
+    def _directed_token(ligand, anchor):
+        token = ez_isomer_class[ligand]
+        if ligand < anchor:
+            return '/' if token == '\\' else '\\'
+        return token
+
+    for node, isomers in nx.get_node_attributes(molecule, 'ez_isomer').items():
+        new_isomers = []
+        for ligand, anchor, other_anchor, other_ligand, _ in isomers:
+            if _directed_token(ligand, anchor) == _directed_token(other_ligand, other_anchor):
+                ez_isomer = 'cis'
+            else:
+                ez_isomer = 'trans'
+            new_isomers.append((ligand, anchor, other_anchor, other_ligand, ez_isomer))
+        molecule.nodes[node]['ez_isomer'] = new_isomers
     # clean up
     for node in ez_isomer_class:
         del  molecule.nodes[node]['ez_isomer_class']
